@@ -70,6 +70,16 @@ pub struct Scenario {
     /// store publishes all threads on one live channel, so the subscriber's filter sees both
     #[serde(default)]
     pub busy_other_thread: bool,
+    /// capacity of the live channels (sessions, tasks, the store's thread channel) for this scenario
+    /// instead of the built-in 16 384 (tuning knob, guarded hook): with a handful of slots every
+    /// subscriber that is a little slower than the producer lags and takes the handler's recovery
+    /// path (re-read the history, continue after the last delivered seq) — on all three stream kinds
+    #[serde(default)]
+    pub channel_capacity: Option<u32>,
+    /// the first subscriber that attaches before the start does not read its response body until
+    /// the stream has ended (used together with `channel_capacity`)
+    #[serde(default)]
+    pub stall_first: bool,
 }
 
 #[derive(Clone, Debug, Serialize, Deserialize, PartialEq)]
@@ -226,7 +236,7 @@ fn tool_input(rng: &mut Rng) -> String {
 pub fn generate(run_seed: u64, _tier: Tier) -> Scenario {
     let mut rng = Rng::derive(run_seed, "c06");
     if Rng::derive(run_seed, "c06-kind").chance(1, 4) {
-        return Scenario { store: Some(generate_store(run_seed)), kind: Kind::Thread { inputs: vec![] }, with_provider: false, script: vec![], plan: Plan::default(), subs: vec![], sub_hold_ms: 0, workers: 0, lag_deltas: None, busy_other_thread: false };
+        return Scenario { store: Some(generate_store(run_seed)), kind: Kind::Thread { inputs: vec![] }, with_provider: false, script: vec![], plan: Plan::default(), subs: vec![], sub_hold_ms: 0, workers: 0, lag_deltas: None, busy_other_thread: false, channel_capacity: None, stall_first: false };
     }
     let mut lag = Rng::derive(run_seed, "c06-lag");
     if lag.chance(1, 50) {
@@ -243,7 +253,7 @@ pub fn generate(run_seed: u64, _tier: Tier) -> Scenario {
         if lag.chance(1, 2) {
             subs.push(When::AfterEnd);
         }
-        return Scenario { store: None, kind: Kind::Session { input: "say a great deal".into() }, with_provider: true, script, plan: Plan::default(), subs, sub_hold_ms: 0, workers: if lag.chance(1, 3) { 3 } else { 0 }, lag_deltas: Some(n), busy_other_thread: false };
+        return Scenario { store: None, kind: Kind::Session { input: "say a great deal".into() }, with_provider: true, script, plan: Plan::default(), subs, sub_hold_ms: 0, workers: if lag.chance(1, 3) { 3 } else { 0 }, lag_deltas: Some(n), busy_other_thread: false, channel_capacity: None, stall_first: false };
     }
     let with_provider = rng.chance(2, 3);
     let input = |rng: &mut Rng| if rng.chance(2, 3) { format!("say something {}", rng.below(100)) } else { tool_input(rng) };
@@ -302,7 +312,20 @@ pub fn generate(run_seed: u64, _tier: Tier) -> Scenario {
     }
     let random = if rng.chance(2, 3) { Some((rng.next_u64(), 1, rng.range(2, 6), rng.range(1, 12))) } else { None };
     let busy_other_thread = matches!(kind, Kind::Thread { .. }) && Rng::derive(run_seed, "c06-other-thread").chance(1, 2);
-    Scenario { store: None, kind, with_provider, script, plan: Plan { rules, random }, subs, sub_hold_ms: rng.below(40), workers, lag_deltas: None, busy_other_thread }
+    // own sub-stream: 1 in 3 scenarios run with a handful of slots in the live channels; in half of
+    // those one subscriber attached before the start stops reading until the stream has ended
+    let mut crng = Rng::derive(run_seed, "c06-capacity");
+    let (mut channel_capacity, mut stall_first) = (None, false);
+    if crng.chance(1, 3) {
+        channel_capacity = Some([1u32, 2, 3, 4, 8, 16, 64][crng.usize_below(7)]);
+        if crng.chance(1, 2) {
+            stall_first = true;
+            if !subs.contains(&When::BeforeStart) {
+                subs.insert(0, When::BeforeStart);
+            }
+        }
+    }
+    Scenario { store: None, kind, with_provider, script, plan: Plan { rules, random }, subs, sub_hold_ms: rng.below(40), workers, lag_deltas: None, busy_other_thread, channel_capacity, stall_first }
 }
 
 // ---------------------------------------------------------------------------------------------
@@ -405,6 +428,17 @@ pub fn execute(sc: &Scenario, env: &Env) -> (Outcome, RunStats) {
     stats.case_hash = fnv1a(serde_json::to_string(sc).unwrap_or_default().as_bytes());
     let _ = esim::panics_take();
     esim::WORKER_THREADS.store(sc.workers as usize, Ordering::SeqCst);
+    struct KnobReset;
+    impl Drop for KnobReset {
+        fn drop(&mut self) {
+            esim::knobs::set_event_channel_capacity(0);
+        }
+    }
+    esim::knobs::set_event_channel_capacity(sc.channel_capacity.unwrap_or(0) as usize);
+    let _knob_reset = KnobReset;
+    if let Some(c) = sc.channel_capacity {
+        stats.bump(&format!("knob:event_channel_capacity={c}"), 1);
+    }
     let engine = Engine::new(&env.root.join("e"), &ProviderCfg::default(), sc.script.clone(), sc.with_provider);
     esim::WORKER_THREADS.store(0, Ordering::SeqCst);
     let engine = match engine {
@@ -459,6 +493,9 @@ pub fn execute(sc: &Scenario, env: &Env) -> (Outcome, RunStats) {
         stats.bump(&format!("fault:task_held_at:{k}"), v);
     }
     drop(engine);
+    if sc.channel_capacity.is_some() {
+        stats.bump("knob:channels_built_with_scenario_capacity", esim::knobs::channels_built() as u64);
+    }
     match result {
         Ok(None) => (Outcome::Ok, stats),
         Ok(Some(v)) => (Outcome::Violation(v), stats),
@@ -501,7 +538,7 @@ fn run_scenario(sc: &Scenario, engine: &Engine, tid: &str, other: Option<&str>, 
         _ => ("session_stream:", "session_subscribe"),
     };
     let attach = |subs: &mut Vec<Sub>, when: When, uri: &str| {
-        let stall = if sc.lag_deltas.is_some() && when == When::BeforeStart && subs.len() == 1 { Some(Arc::new(AtomicBool::new(true))) } else { None };
+        let stall = if when == When::BeforeStart && ((sc.lag_deltas.is_some() && subs.len() == 1) || (sc.stall_first && subs.is_empty())) { Some(Arc::new(AtomicBool::new(true))) } else { None };
         let s = spawn_sub_stalled(engine, uri, when, stall);
         let att = s.attached.clone();
         // a producer held inside its emitter keeps the stream's buffer locked: the subscriber then
@@ -724,6 +761,7 @@ fn run_scenario(sc: &Scenario, engine: &Engine, tid: &str, other: Option<&str>, 
                 When::AfterEnd => "attached_after_end",
             };
             let short = |v: &[u64]| if v.len() > 40 { format!("[{} seqs: {:?} … {:?}]", v.len(), &v[..6], &v[v.len() - 6..]) } else { format!("{v:?}") };
+            let when = if sc.channel_capacity.is_some() { format!("{when}:small_channel") } else { when.to_string() };
             verdict = Some(viol(class, format!("{class}:{kind_name}:{when}"), format!("subscriber #{i} ({:?}) of {uri} received seqs {}; the stream has {} (missing {}); plan {:?}", s.when, short(&got_seqs), short(&exp_seqs), short(&missing), sc.plan.rules)));
         }
     }
